@@ -220,12 +220,16 @@ def contracts(m):
 def witness_still_fails(k):
     from vf.genlab import run_isolated
     f = run_isolated("props.C16_native", "scenarios")
+    _g = run_isolated("props.C16_native", "extended_scenarios")
+    f = {"cases": f.get("cases", 0) + _g.get("cases", 0), "failures": list(f["failures"]) + list(_g["failures"])}
     return any(x.get("known") == k["witness"] for x in f["failures"])
 
 
 def falsify(run, group, info):
     from vf.genlab import run_isolated
     f = run_isolated("props.C16_native", "scenarios")
+    _g = run_isolated("props.C16_native", "extended_scenarios")
+    f = {"cases": f.get("cases", 0) + _g.get("cases", 0), "failures": list(f["failures"]) + list(_g["failures"])}
     run.bounded.append({"what": "falsifier: selective generation of a concrete type graph through the real API.build (closure, minimality, method set, dependencies, internal mode, validation)", "cases": f["cases"]})
     fails = [x for x in f["failures"] if not x.get("known")]
     return ({"kind": "selective", "failures": fails[:6]}, True) if fails else (None, False)
@@ -235,6 +239,8 @@ def replay(path):
     import json
     from vf.genlab import run_isolated
     f = run_isolated("props.C16_native", "scenarios")
+    _g = run_isolated("props.C16_native", "extended_scenarios")
+    f = {"cases": f.get("cases", 0) + _g.get("cases", 0), "failures": list(f["failures"]) + list(_g["failures"])}
     fails = [x for x in f["failures"] if not x.get("known")]
     print("selective-generation scenarios ->", json.dumps(fails[:4]) if fails else "conform (known findings aside)")
     return 1 if fails else 0
@@ -264,4 +270,7 @@ def run(run: Run):
     run.not_decided.append("termination of the traversal (finite-graph argument over the visited set)")
     run.assume("Address objects are compared by value; the model identifies equal addresses (one wrapper per address)",
                "the successor relation is *defined* from the schema (defines_succ_* preconditions are definitional, not checked against a caller)")
+    run.native_standin("props.C16_native", "extended_scenarios",
+                       "BOUNDED: Compute-style extended operations (operation service declared before / after the initiating service) x 5 method lists: exposed RPCs = listed "
+                       "plus the polling method they need; REST library generated, service modules compile", group="native.C16:extended-operations")
     run.native_standin("props.C16_native", "scenarios")
